@@ -487,3 +487,101 @@ def canon_helper_objects(trees: List[ast.Module]) -> Dict[str, int]:
                     break
                 done["*"] = done.get("*", 0) + 1
     return done
+
+
+# --------------------------------------------------------------------------- per-object memo attributes
+def canon_memo_attributes(trees: List[ast.Module]) -> Dict[str, str]:
+    """`self._h = None` in __init__ and, in methods of the same class, `if self._h is None: self._h = E` followed by uses of `self._h`,
+    with E reading only attributes that are assigned nowhere but in __init__: the attribute remembers E. Every store to `._h` in the
+    package must be one of those two forms. The memo is removed: the `if` goes, later reads of `self._h` in that method become E."""
+    stores: Dict[str, List[Tuple[ast.AST, Optional[ast.ClassDef], Optional[ast.FunctionDef]]]] = {}
+    for tree in trees:
+        def visit(node: ast.AST, cls: Optional[ast.ClassDef], fn: Optional[ast.FunctionDef]) -> None:
+            for c in ast.iter_child_nodes(node):
+                if isinstance(c, ast.ClassDef):
+                    visit(c, c, None)
+                elif isinstance(c, (ast.FunctionDef, ast.AsyncFunctionDef)):
+                    visit(c, cls, c if fn is None else fn)       # type: ignore[arg-type]
+                else:
+                    if isinstance(c, ast.Attribute) and isinstance(c.ctx, (ast.Store, ast.Del)):
+                        stores.setdefault(c.attr, []).append((c, cls, fn))
+                    visit(c, cls, fn)
+        visit(tree, None, None)
+    done: Dict[str, str] = {}
+    for tree in trees:
+        for cls in [c for c in ast.walk(tree) if isinstance(c, ast.ClassDef)]:
+            init = next((m for m in cls.body if isinstance(m, ast.FunctionDef) and m.name == "__init__"), None)
+            if init is None:
+                continue
+            for st in init.body:
+                tgt = st.targets[0] if isinstance(st, ast.Assign) and len(st.targets) == 1 else (st.target if isinstance(st, ast.AnnAssign) else None)
+                val = getattr(st, "value", None)
+                if not (isinstance(tgt, ast.Attribute) and isinstance(tgt.value, ast.Name) and tgt.value.id == "self"
+                        and isinstance(val, ast.Constant) and val.value is None):
+                    continue
+                attr = tgt.attr
+                sites = stores.get(attr, [])
+                memo_ifs: List[Tuple[ast.FunctionDef, ast.If]] = []
+                ok = True
+                for node, c_, f_ in sites:
+                    if node is tgt:
+                        continue
+                    if c_ is not cls or f_ is None or not (isinstance(node.value, ast.Name) and node.value.id == "self"):     # type: ignore[attr-defined]
+                        ok = False
+                        break
+                    found = None
+                    for n in ast.walk(f_):
+                        if isinstance(n, ast.If) and not n.orelse and len(n.body) == 1 and isinstance(n.body[0], ast.Assign) \
+                                and n.body[0].targets == [node] and isinstance(n.test, ast.Compare) and len(n.test.ops) == 1 \
+                                and isinstance(n.test.ops[0], ast.Is) and ast.unparse(n.test.left) == "self.%s" % attr \
+                                and isinstance(n.test.comparators[0], ast.Constant) and n.test.comparators[0].value is None:
+                            found = n
+                    if found is None:
+                        ok = False
+                        break
+                    memo_ifs.append((f_, found))
+                if not ok or not memo_ifs:
+                    continue
+                exprs = {ast.unparse(i.body[0].value) for _f, i in memo_ifs}          # type: ignore[attr-defined]
+                if len(exprs) != 1:
+                    continue
+                expr = memo_ifs[0][1].body[0].value          # type: ignore[attr-defined]
+                # E reads only attributes fixed at construction
+                frozen = True
+                for n in ast.walk(expr):
+                    if isinstance(n, ast.Attribute) and isinstance(n.value, ast.Name) and n.value.id == "self":
+                        for node, c_, f_ in stores.get(n.attr, []):
+                            if not (c_ is cls and f_ is init):
+                                frozen = False
+                if not frozen:
+                    continue
+                for f_, memo in memo_ifs:
+                    class R(ast.NodeTransformer):
+                        def visit_If(self, node: ast.If) -> Any:
+                            if node is memo:
+                                return None
+                            self.generic_visit(node)
+                            return node
+
+                        def visit_Attribute(self, node: ast.Attribute) -> ast.AST:
+                            if isinstance(node.ctx, ast.Load) and node.attr == attr and isinstance(node.value, ast.Name) and node.value.id == "self":
+                                return ast.copy_location(copy.deepcopy(expr), node)
+                            self.generic_visit(node)
+                            return node
+                    # only reads after the memo statement see the remembered value; reads before it are left (they see None or E)
+                    seen_memo = False
+                    new_body: List[ast.stmt] = []
+                    for st2 in f_.body:
+                        if any(n is memo for n in ast.walk(st2)):
+                            seen_memo = True
+                            r = R().visit(st2)
+                            if r is not None:
+                                new_body.append(r)
+                        elif seen_memo:
+                            new_body.append(R().visit(st2))
+                        else:
+                            new_body.append(st2)
+                    f_.body = new_body or [ast.Pass()]
+                    ast.fix_missing_locations(f_)
+                done["%s.%s" % (cls.name, attr)] = "memo of %s" % ast.unparse(expr)[:60]
+    return done
